@@ -4,7 +4,8 @@ a data race or memory error.   Property theorems only (helpers: `Lemmas/Spsc.lea
 
 Scope (claimed *partial*): every theorem is about the sequentially consistent interleaving model
 (`RtcModel.Spsc`, `RtcModel.SpscTrack`): one step = one shared-memory access, any interleaving, any
-capacity, any number of operations, any word size `W = 2^k` (so index wrap-around is included). The
+capacity `cap` with `2·cap ≤ 2^k` (the range in which `capacity.next_power_of_two()` does not
+overflow), any number of operations, any word size `W = 2^k` (so index wrap-around is included). The
 C++11-style weak memory model (sufficiency of the Acquire/Release orderings) is NOT covered; the
 orderings are only pinned by the translator anchors. Sample values are atomic in the model: a torn
 slot access is inexpressible; what IS proved is that the two non-atomic accesses (slot write, slot
@@ -16,6 +17,7 @@ generated-constant obligation and the witnesses that document why the four fixes
 -/
 import RtcModel.Lemmas.Spsc
 import RtcModel.Lemmas.SpscTrack
+import RtcModel.Lemmas.SpscPipe
 
 namespace RtcModel.Theorems.C20
 open RtcModel.Spsc RtcModel.SpscTrack RtcModel.C20Word RtcModel.Generated
@@ -35,15 +37,15 @@ theorem const_obligations :
 /-- **ring_invariant**: for every capacity, every word size `2^k` and every interleaving of the
 individual accesses of one `push` sequence and one `pop` sequence (unbounded, across any number of
 index wrap-arounds), the ring invariant holds. -/
-theorem ring_invariant (cap k : Nat) (h0 : 0 < cap) (h1 : cap < 2 ^ k) (ls : List RLabel) :
+theorem ring_invariant (cap k : Nat) (h0 : 0 < cap) (h1 : 2 * cap ≤ 2 ^ k) (ls : List RLabel) :
     RingInv (rrun (RSys.init cap (2 ^ k)) ls).ring (rrun (RSys.init cap (2 ^ k)) ls).pu
       (rrun (RSys.init cap (2 ^ k)) ls).po :=
-  rrun_inv _ ls (RingInv.init cap k h0 h1)
+  rrun_inv _ ls (RingInv.init cap k h0 (by omega))
 
 /-- **ring_slot_safety** + FIFO: no access ever reads an uninitialised slot or overwrites an
 initialised one, and the values handed out by `pop` are exactly the first `hcount` values written
 by `push`, in order (nothing duplicated, reordered, invented or skipped). -/
-theorem ring_slot_safety (cap k : Nat) (h0 : 0 < cap) (h1 : cap < 2 ^ k) (ls : List RLabel) :
+theorem ring_slot_safety (cap k : Nat) (h0 : 0 < cap) (h1 : 2 * cap ≤ 2 ^ k) (ls : List RLabel) :
     let r := (rrun (RSys.init cap (2 ^ k)) ls).ring
     r.bad = [] ∧ r.outs = r.log.take r.hcount :=
   ⟨(ring_invariant cap k h0 h1 ls).noBad, (ring_invariant cap k h0 h1 ls).outsEq⟩
@@ -51,7 +53,7 @@ theorem ring_slot_safety (cap k : Nat) (h0 : 0 < cap) (h1 : cap < 2 ^ k) (ls : L
 /-- **ring_write_read_disjoint** ("no data race" inside the SC model): whenever the pusher is about
 to write its slot and the popper is about to read (move out of) its slot — the only two accesses of
 the real code that are not atomic — they address different slots. -/
-theorem ring_write_read_disjoint (cap k : Nat) (h0 : 0 < cap) (h1 : cap < 2 ^ k) (ls : List RLabel)
+theorem ring_write_read_disjoint (cap k : Nat) (h0 : 0 < cap) (h1 : 2 * cap ≤ 2 ^ k) (ls : List RLabel)
     (tl hl : Nat) (v : Val)
     (hp : (rrun (RSys.init cap (2 ^ k)) ls).pu = some (.write tl, v))
     (hq : (rrun (RSys.init cap (2 ^ k)) ls).po = some (.read hl)) :
@@ -63,7 +65,7 @@ theorem ring_write_read_disjoint (cap k : Nat) (h0 : 0 < cap) (h1 : cap < 2 ^ k)
 /-- **ring_drop_drains**: whenever nobody is inside `push`/`pop` (which `&mut self` of `Drop`
 guarantees), `Drop for SpscRing` drops exactly the values still queued — each once, oldest first —
 never touches an uninitialised slot and leaves no slot of the buffer initialised. -/
-theorem ring_drop_drains (cap k : Nat) (h0 : 0 < cap) (h1 : cap < 2 ^ k) (ls : List RLabel)
+theorem ring_drop_drains (cap k : Nat) (h0 : 0 < cap) (h1 : 2 * cap ≤ 2 ^ k) (ls : List RLabel)
     (hq : (rrun (RSys.init cap (2 ^ k)) ls).pu = none ∧ (rrun (RSys.init cap (2 ^ k)) ls).po = none) :
     let r := (rrun (RSys.init cap (2 ^ k)) ls).ring
     r.drop.2 = r.log.drop r.hcount ∧ r.drop.1.bad = [] ∧ ∀ i, i < r.mask + 1 → r.drop.1.slots i = none := by
@@ -105,15 +107,15 @@ number of producer threads (each label names a producer index; handles are creat
 dropped by `dropSrc` at arbitrary points; operations `send`, `send_many`, `try_send`), the consumer's
 `recv` and `stop()`, for every capacity: the lock discipline holds (at most one thread is inside
 `push`, at most one inside `pop`) and the ring invariant holds for the two lock holders. -/
-theorem track_invariant (cap k : Nat) (h0 : 0 < cap) (h1 : cap < 2 ^ k) (ls : List Label) :
+theorem track_invariant (cap k : Nat) (h0 : 0 < cap) (h1 : 2 * cap ≤ 2 ^ k) (ls : List Label) :
     TInv (run (init cap k) ls) :=
-  run_TInv _ ls (TInv.init cap k h0 h1)
+  run_TInv _ ls (TInv.init cap k h0 (by omega))
 
 /-- **multi_producer_safe** (which contains **slot_safety** for one producer): for every number of
 producers, every capacity and every schedule, no access ever reads an uninitialised slot or
 overwrites an initialised one, and the values handed out by `pop` (to the consumer or to a
 drop-oldest producer) are exactly the first `hcount` values written, in order. -/
-theorem multi_producer_safe (cap k : Nat) (h0 : 0 < cap) (h1 : cap < 2 ^ k) (ls : List Label) :
+theorem multi_producer_safe (cap k : Nat) (h0 : 0 < cap) (h1 : 2 * cap ≤ 2 ^ k) (ls : List Label) :
     (run (init cap k) ls).ring.bad = [] ∧
     (run (init cap k) ls).ring.outs = (run (init cap k) ls).ring.log.take (run (init cap k) ls).ring.hcount :=
   ⟨(track_invariant cap k h0 h1 ls).ring.noBad, (track_invariant cap k h0 h1 ls).ring.outsEq⟩
@@ -139,7 +141,7 @@ theorem mutual_exclusion (cap k : Nat) (ls : List Label) (i j : Nat) :
 about to write a slot (`MaybeUninit::write`), nobody else is about to write one, and whoever is about
 to read a slot (`assume_init_read`: the consumer, or — vacuously — a drop-oldest producer) addresses
 a different slot. -/
-theorem no_slot_race (cap k : Nat) (h0 : 0 < cap) (h1 : cap < 2 ^ k) (ls : List Label)
+theorem no_slot_race (cap k : Nat) (h0 : 0 < cap) (h1 : 2 * cap ≤ 2 ^ k) (ls : List Label)
     (i tl v : Nat) (c : Ctx) (rest : List Nat)
     (hw : (run (init cap k) ls).pp i = .push c v rest (.write tl)) :
     (∀ j c' v' rest' tl', (run (init cap k) ls).pp j = .push c' v' rest' (.write tl') → j = i) ∧
@@ -150,7 +152,7 @@ theorem no_slot_race (cap k : Nat) (h0 : 0 < cap) (h1 : cap < 2 ^ k) (ls : List 
 
 /-- **slot_safety_drop**: whenever no thread is inside `push`/`pop` (in particular when the last
 `Arc` of the ring is released), `Drop for SpscRing` drops exactly the queued samples, each once. -/
-theorem slot_safety_drop (cap k : Nat) (h0 : 0 < cap) (h1 : cap < 2 ^ k) (ls : List Label)
+theorem slot_safety_drop (cap k : Nat) (h0 : 0 < cap) (h1 : 2 * cap ≤ 2 ^ k) (ls : List Label)
     (hq : (run (init cap k) ls).plock = none ∧ (run (init cap k) ls).poplock = none) :
     let r := (run (init cap k) ls).ring
     r.drop.2 = r.log.drop r.hcount ∧ r.drop.1.bad = [] ∧ ∀ i, i < r.mask + 1 → r.drop.1.slots i = none := by
@@ -164,7 +166,7 @@ theorem slot_safety_drop (cap k : Nat) (h0 : 0 < cap) (h1 : cap < 2 ^ k) (ls : L
 of the pushed values `log`) are an *interleaving* of what `recv` returned (`recvd`) and what the
 drop-oldest path of `send` discarded (`droppedOld`): each popped sample went to exactly one of the
 two, nothing popped vanished, nothing was delivered that was not popped, orders kept. -/
-theorem conservation (cap k : Nat) (h0 : 0 < cap) (h1 : cap < 2 ^ k) (ls : List Label) :
+theorem conservation (cap k : Nat) (h0 : 0 < cap) (h1 : 2 * cap ≤ 2 ^ k) (ls : List Label) :
     let s := run (init cap k) ls
     Interleave s.recvd s.droppedOld (s.ring.log.take s.ring.hcount) := by
   intro s
@@ -180,7 +182,7 @@ For every number of producers, capacity and schedule, with overflow (drop-oldest
 `try_send`), `stop()` and source drops anywhere: the received samples are a *subsequence* of the
 pushed ones — every received sample is one pushed sample (same tag and payload), none is received
 twice, and the samples of each producer arrive in the order that producer pushed them. -/
-theorem no_dup_no_reorder (cap k : Nat) (h0 : 0 < cap) (h1 : cap < 2 ^ k) (ls : List Label) :
+theorem no_dup_no_reorder (cap k : Nat) (h0 : 0 < cap) (h1 : 2 * cap ≤ 2 ^ k) (ls : List Label) :
     let s := run (init cap k) ls
     List.Sublist s.recvd s.ring.log ∧
     ∀ i : Nat, List.Sublist (s.recvd.filter (fun x => x.1 == i)) (s.ring.log.filter (fun x => x.1 == i)) := by
@@ -194,12 +196,12 @@ dropped (`closed`), every sample ever pushed has been popped, and the pushed sam
 interleaving of the received ones and the ones discarded by drop-oldest overflow: every sample that
 was still queued when the source closed has been *delivered* (after the close no producer exists that
 could discard anything). -/
-theorem eos_only_when_drained (cap k : Nat) (h0 : 0 < cap) (h1 : cap < 2 ^ k) (ls : List Label) :
+theorem eos_only_when_drained (cap k : Nat) (h0 : 0 < cap) (h1 : 2 * cap ≤ 2 ^ k) (ls : List Label) :
     let s := run (init cap k) ls
     s.stopCalled = false → (CRes.eos ∈ s.cres ∨ s.ended = true) →
       s.closed = true ∧ s.ring.hcount = s.ring.tcount ∧ Interleave s.recvd s.droppedOld s.ring.log := by
   intro s hs he
-  have hF : FInv s := run_FInv _ ls (FInv.init cap k h0 h1)
+  have hF : FInv s := run_FInv _ ls (FInv.init cap k h0 (by omega))
   have hd : Drained s := by
     cases he with
     | inl h => exact (hF.e.eos h).resolve_left (by simp [hs])
@@ -219,6 +221,15 @@ theorem eos_only_when_drained (cap k : Nat) (h0 : 0 < cap) (h1 : cap < 2 ^ k) (l
   have hc := conservation cap k h0 h1 ls
   have e : s.ring.log.take s.ring.hcount = s.ring.log := by rw [hd.2, ← hlen, List.take_length]
   rw [← e]; exact hc
+
+/-- **no_discard_after_close**: in every reachable state in which the source is closed, no step of any
+thread discards a sample (`droppedOld` is frozen): together with `eos_only_when_drained` — at
+end-of-stream the pushed samples are an interleaving of the received and the discarded ones — every
+sample that was queued when the source closed has been delivered by `recv`. -/
+theorem no_discard_after_close (cap k : Nat) (ls : List Label) (l : Label)
+    (hc : (run (init cap k) ls).closed = true) :
+    (step (run (init cap k) ls) l).droppedOld = (run (init cap k) ls).droppedOld :=
+  no_discard_after_close_of_inv _ (run_induct LInv step_LInv _ ls (LInv.init cap (2 ^ k))) hc l
 
 /-- **no_lost_wakeup_after_close** (drain_then_eos, liveness ingredient): in every
 reachable state in which every source handle has been dropped and the closing thread has finished
@@ -251,6 +262,70 @@ example :
        .prod 2 none, .prod 2 none, .prod 2 none, .prod 2 none, .cons false, .cons false, .cons false,
        .cons false, .cons false, .cons false, .cons false, .cons false, .cons false]
     s.recvd = [(0, 1)] ∧ s.rejected = [(2, 1)] ∧ s.droppedOld = [] := by
+  refine ⟨by decide, by decide, by decide⟩
+
+/-! ### the pipeline.rs queue pair (`SampleQueueSender` shared by reference / `SampleQueueReceiver`) -/
+
+/-- initial state of the pipeline pair: `sample_queue_channel(cap)` -/
+abbrev pinit (cap k : Nat) : St := St.init Variant.pipeCur cap (2 ^ k) 0
+
+/-- **pipe_invariant**: after ANY interleaving of the accesses of any number of producer threads
+sharing the one sender (`send`, `try_send`, release of their reference — the last release runs
+`Drop for SampleQueueSender`) and of the receiver (`recv`, `Drop for SampleQueueReceiver`): lock
+discipline and the ring invariant for the two lock holders. (Labels of the track-only machines —
+the track consumer and `stop()` — do not exist for this pair and are excluded.) -/
+theorem pipe_invariant (cap k : Nat) (h0 : 0 < cap) (h1 : 2 * cap ≤ 2 ^ k) (ls : List Label)
+    (hl : ∀ l ∈ ls, PipeLabel l) : PTInv (run (pinit cap k) ls) :=
+  run_PTInv _ ls hl (PTInv.init cap k h0 (by omega))
+
+/-- **pipe_multi_producer_safe**: slot safety and FIFO hand-out for the pipeline pair, any number
+of producer threads on the shared sender; mutual exclusion inside `push` and inside `pop`. -/
+theorem pipe_multi_producer_safe (cap k : Nat) (h0 : 0 < cap) (h1 : 2 * cap ≤ 2 ^ k) (ls : List Label)
+    (hl : ∀ l ∈ ls, PipeLabel l) (i j : Nat) :
+    let s := run (pinit cap k) ls
+    s.ring.bad = [] ∧ s.ring.outs = s.ring.log.take s.ring.hcount ∧
+    (holdsPush (s.pp i) = true → holdsPush (s.pp j) = true → i = j) ∧
+    (holdsPopP (s.pp i) = true → holdsPopR s.rp = false) := by
+  have h := pipe_invariant cap k h0 h1 ls hl
+  refine ⟨h.ring.noBad, h.ring.outsEq, fun a b => ?_, fun a => ?_⟩
+  · have := (h.l.plockIff i).1 a; have := (h.l.plockIff j).1 b; simp_all
+  · have := (h.l.poplockP i).1 a
+    cases hc : holdsPopR (run (pinit cap k) ls).rp with
+    | false => rfl
+    | true => have := h.l.poplockR.1 hc; simp_all
+
+/-- **pipe_no_slot_race**: the producer about to write a slot is the only writer, no producer is
+reading, and the receiver, if about to read, addresses a different slot. -/
+theorem pipe_no_slot_race (cap k : Nat) (h0 : 0 < cap) (h1 : 2 * cap ≤ 2 ^ k) (ls : List Label)
+    (hl : ∀ l ∈ ls, PipeLabel l) (i tl v : Nat) (c : Ctx) (rest : List Nat)
+    (hw : (run (pinit cap k) ls).pp i = .push c v rest (.write tl)) :
+    (∀ j c' v' rest' tl', (run (pinit cap k) ls).pp j = .push c' v' rest' (.write tl') → j = i) ∧
+    (∀ j v' rest' hl', (run (pinit cap k) ls).pp j ≠ .pop v' rest' (.read hl')) ∧
+    (∀ cl hl', (run (pinit cap k) ls).rp = .pop cl (.read hl') →
+      (run (pinit cap k) ls).ring.idx tl ≠ (run (pinit cap k) ls).ring.idx hl') :=
+  pipe_no_slot_race_of_inv _ (pipe_invariant cap k h0 h1 ls hl) i tl v c rest hw
+
+/-- **pipe_no_dup_no_reorder** + conservation for the pipeline pair: what `pop` handed out (a prefix
+of the pushed values) is an interleaving of what `recv` returned and what drop-oldest discarded;
+the received samples are a subsequence of the pushed ones. -/
+theorem pipe_no_dup_no_reorder (cap k : Nat) (h0 : 0 < cap) (h1 : 2 * cap ≤ 2 ^ k) (ls : List Label)
+    (hl : ∀ l ∈ ls, PipeLabel l) :
+    let s := run (pinit cap k) ls
+    Interleave s.recvd s.droppedOld (s.ring.log.take s.ring.hcount) ∧ List.Sublist s.recvd s.ring.log := by
+  intro s
+  have hg : GInv s := run_GInv _ ls (GInv.init _ cap (2 ^ k))
+  have ho := (pipe_invariant cap k h0 h1 ls hl).ring.outsEq
+  unfold GInv at hg
+  rw [ho] at hg
+  exact ⟨hg, hg.sub_left.trans (List.take_sublist _ _)⟩
+
+/-- non-vacuity for the pipeline pair: two producers on the shared sender, capacity 1 (the second
+send overflows: drop-oldest), the receiver gets the newer sample -/
+example :
+    let s := run (pinit 1 64) ([.prod 0 (some (.cloneTo 1)), .prod 0 none, .prod 0 (some (.send [1]))] ++
+      List.replicate 7 (.prod 0 none) ++ [.prod 1 (some (.send [2]))] ++ List.replicate 15 (.prod 1 none) ++
+      [.rcv (some .recv)] ++ List.replicate 6 (.rcv none))
+    s.recvd = [(1, 2)] ∧ s.droppedOld = [(0, 1)] ∧ s.ring.bad = [] := by
   refine ⟨by decide, by decide, by decide⟩
 
 /-! ### auxiliary: witnesses about SUPERSEDED code versions (why the fixes were needed) -/
